@@ -215,6 +215,38 @@ def shapes(tier, seed):
         {'set': 'idx_only', 'id': 'idx', 'index_id': 'off', 'index_val': V('v1')}]}, expect=['ok', 'rejected'])
     ok('G:plain-in-first-variant', cfgG(), {'mnemonic': 'u', 'variant': 0, 'text': 'u [ix]', 'uses': [{'set': 'plain_only', 'id': 'plain'}]})
     rej('G:offset-with-no-form-accepting-it', cfgG(v1=(0, 5)), 'w [ix+v1]')
+    # H: alternatives of the same kind in one set keep their definition order, whatever they are called
+    for order in ('za', 'az'):
+        first, second = ('z_first', 'a_second') if order == 'za' else ('a_first', 'z_second')
+        osetsH = {
+            'nums': {'operand_values': {
+                first: {'type': 'numeric', 'bytecode': code('h_n1', 4), 'argument': arg(8, True)},
+                second: {'type': 'numeric', 'bytecode': code('h_n2', 4), 'argument': arg(16, True)}}},
+            'inds': {'operand_values': {
+                first: {'type': 'indirect_register', 'register': 'sp', 'bytecode': code('h_i1', 4)},
+                second: {'type': 'indirect_register', 'register': 'sp', 'bytecode': code('h_i2', 4), 'offset': {'size': 8, 'byte_align': True}}}},
+            'enums': {'operand_values': {
+                first: {'type': 'enumeration', 'bytecode': {'size': 4, 'value_dict': {'eq': Sym('h_e1', 0, 15), 'lt': Sym('h_l1', 0, 15)}},
+                        'argument': {'size': 8, 'byte_align': True, 'value_dict': {'eq': Sym('ha_e1', 0, 255), 'lt': Sym('ha_l1', 0, 255)}}},
+                second: {'type': 'enumeration', 'bytecode': {'size': 4, 'value_dict': {'eq': Sym('h_e2', 0, 15), 'gt': Sym('h_g2', 0, 15)}},
+                         'argument': {'size': 8, 'byte_align': True, 'value_dict': {'eq': Sym('ha_e2', 0, 255), 'gt': Sym('ha_g2', 0, 255)}}}}},
+            'memn': {'operand_values': {
+                first: {'type': 'indirect_numeric', 'bytecode': code('h_m1', 4), 'argument': arg(16, True, 'little')},
+                second: {'type': 'indirect_numeric', 'bytecode': code('h_m2', 4), 'argument': arg(16, True)}}}}
+        insH = {'tn': {'bytecode': code('op', 4), 'operands': {'count': 1, 'operand_sets': {'list': ['nums']}}},
+                'ti': {'bytecode': code('op', 4), 'operands': {'count': 1, 'operand_sets': {'list': ['inds']}}},
+                'te': {'bytecode': code('op', 4), 'operands': {'count': 1, 'operand_sets': {'list': ['enums']}}},
+                'tm': {'bytecode': code('op', 4), 'operands': {'count': 1, 'operand_sets': {'list': ['memn']}}}}
+        cfgH = lambda **cs: isa(operand_sets=osetsH, instructions=insH, consts=cs)  # noqa
+        ok(f'H:{order}:first-of-two-numeric', cfgH(v1=vrange(8)), {'mnemonic': 'tn', 'text': 'tn v1', 'uses': [
+            {'set': 'nums', 'id': first, 'val': V('v1')}]}, expect=['ok', 'rejected'])
+        ok(f'H:{order}:first-of-two-indirect-numeric', cfgH(v1=vrange(16)), {'mnemonic': 'tm', 'text': 'tm [v1]', 'uses': [
+            {'set': 'memn', 'id': first, 'val': V('v1')}]}, expect=['ok', 'rejected'])
+        ok(f'H:{order}:plain-indirect-before-offset-form', cfgH(), {'mnemonic': 'ti', 'text': 'ti [sp]', 'uses': [{'set': 'inds', 'id': first}]})
+        ok(f'H:{order}:offset-form-when-plain-declines', cfgH(v1=vrange(8)), {'mnemonic': 'ti', 'text': 'ti [sp+v1]', 'uses': [
+            {'set': 'inds', 'id': second, 'val': V('v1')}]}, expect=['ok', 'rejected'])
+        ok(f'H:{order}:shared-enumeration-key', cfgH(), {'mnemonic': 'te', 'text': 'te eq', 'uses': [{'set': 'enums', 'id': first, 'key': 'eq'}]})
+        ok(f'H:{order}:key-only-in-second-enumeration', cfgH(), {'mnemonic': 'te', 'text': 'te gt', 'uses': [{'set': 'enums', 'id': second, 'key': 'gt'}]})
     rej('D:undeclared-register-form', cfgD2(), 't rb')
     rej('D:indirect-of-unlisted-register', cfgD2(), 't [ix]')
     rej('D:register-in-brackets-as-number', cfgD2(), 't [ra]')
